@@ -484,6 +484,10 @@ func (reg *Reg) blobPutUploadChunked(ctx context.Context, r ref.Ref, d descripto
 			chunkSize = len(bufBytes)
 			bufChange = true
 		}
+		if finalChunk && chunkStart >= bufStart+int64(len(bufBytes)) {
+			// the registry already holds everything that was read, nothing is left to send
+			chunkSize = 0
+		}
 		if chunkSize > 0 && chunkStart != bufStart {
 			return d, fmt.Errorf("chunkStart (%d) != bufStart (%d)", chunkStart, bufStart)
 		}
